@@ -109,6 +109,7 @@ def battery(tables, cfg, want, argsets):
         for s in str(c.message).split(': ', 1)[-1].split()))
     if st != 'ok':
         o.update({'lexicons': [], 'expanded': [], 'W': [], 'S': [], 'Y': [], 'desc': [], 'A': [], 'ident': [],
+                  'TS': [], 'TW': [],
                   'words': [], 'senses': [], 'synsets': []})
         return o
     o['lexicons'] = [lx.specifier() for lx in w.lexicons()]
@@ -166,6 +167,18 @@ def battery(tables, cfg, want, argsets):
                 ident.append([v == u, hash(v) == hash(u), v in {u}, {v: 1}.get(u) == 1,
                               all(v != z for z in others), not (v != u)])
     o['ident'] = ident
+    # sense and word translation (images of synset translation)
+    o['TS'] = []
+    o['TW'] = []
+    targets0 = cfg.get('translate', [])
+    for x in senses:
+        o['TS'].append(name(x) + [[[t, names(call(x.translate, lexicon=t))] for t in targets0]])
+    for x in words:
+        rows = []
+        for t in targets0[:2]:
+            st, d = call(x.translate, lexicon=t)
+            rows.append([t, st, [[name(k_), [name(v_) for v_ in vs]] for k_, vs in d.items()] if st == 'ok' else []])
+        o['TW'].append(name(x) + [rows])
     # texts attached to senses / synsets (examples, first definition, counts)
     o['A'] = []
     for x in senses:
@@ -188,6 +201,8 @@ def battery(tables, cfg, want, argsets):
         else:
             row += [['ok', []], ['ok', []], [], []]
         row += [[[t, names(call(x.translate, lexicon=t))] for t in targets]]
+        lst, lv = call(x.lemmas)
+        lem_row = [lst, [str(f) for f in lv] if lst == 'ok' else []]
         if 'exp' in want:
             # follow placeholders two more steps
             st2, tg = call(x.get_related)
@@ -198,6 +213,9 @@ def battery(tables, cfg, want, argsets):
                         ph.append([name(t), relmap(call(t.relation_map)),
                                    names(call(t.hypernyms))])
             row += [ph, paths(call(x.hypernym_paths))]
+        else:
+            row += [[], ['ok', []]]
+        row += [lem_row]
         o['Y'].append(row)
     return o
 
